@@ -450,11 +450,12 @@ pub fn systematic(thorough: bool) -> Vec<Case> {
             }
         }
     }
-    // every method once in one function with all operands at 2^21-1 / 2^21 (expensive: 2^21 registers and pool entries)
-    for v in [B3 - 1, B3] {
+    // every method once in one function with operands on both sides of 2^21 (expensive: 2^21 registers and pool entries)
+    {
+        let v = B3;
         let mut items = vec![];
-        for &m in M::ALL {
-            let mut c = single(m, &[v, v - 1, v], v, v + 1, v + 1, "");
+        for (i, &m) in M::ALL.iter().enumerate() {
+            let mut c = single(m, &[v, v - 1, v - (i as u32 % 2)], v - (i as u32 % 2), v + 1, v + 1, "");
             items.push(c.items.remove(0));
         }
         let n = items.len();
@@ -477,7 +478,7 @@ pub fn systematic(thorough: bool) -> Vec<Case> {
     // exact backward distances
     let mut back = vec![0u32, 1, B1 - 2, B1 - 1, B1, B1 + 1, B2 - 2, B2 - 1, B2, B2 + 1, B3 - 1, B3, B3 + 1];
     if thorough {
-        back.extend([B4 - 1, B4, B4 + 1]);
+        back.extend([B4 - 1, B4]);
     }
     for d in back {
         let mut items = vec![];
@@ -497,8 +498,8 @@ pub fn systematic(thorough: bool) -> Vec<Case> {
     // exact forward distances (fixed-width u32: byte boundaries) for each of the three forward jumps
     for m in [M::Jump, M::JumpIfFalse, M::JumpIfTrue] {
         let mut fwd = vec![0u32, 1, B1 - 1, B1, 255, 256, 257, B2 - 1, B2, 65535, 65536, B3 - 1, B3, (1 << 24) - 1, 1 << 24];
-        if thorough {
-            fwd.extend([B4 - 1, B4]);
+        if thorough && m == M::Jump {
+            fwd.push(B4);
         }
         for d in fwd {
             let j = Item::new(m);
